@@ -297,7 +297,12 @@ func reuseProperty(st *vStats) func(t *rapid.T) {
 		defer o.w.close()
 		st.eval()
 		e2TraceHash(st, o.w)
-		if sig, msg := judgeReuse(s, o); sig != "" {
+		if sig, msg := judgeReuse(s, o); sig != "" && e2Confirmed(st, o.w, func(d []vs.Step) string {
+			o2 := runReuse(nil, s, d)
+			defer o2.w.close()
+			s2, _ := judgeReuse(s, o2)
+			return s2
+		}) {
 			rep := e2Replay{Scenario: s, Strategy: o.w.strategy, Decisions: o.w.trace(), Events: o.w.names(), TraceTail: o.w.describeTrace(40)}
 			vReport(vViolation{Property: "C10", Slot: "rapid:C10", Signature: sig, Message: msg, Replay: rep})
 			t.Fatalf("C10 violated [%s]: %s\nscenario: %+v\nlast steps:\n%s", sig, msg, s, o.w.describeTrace(30))
